@@ -1,6 +1,7 @@
 import NetVerif.Model.TimeSeries
 import NetVerif.Gen.C61
 import NetVerif.Proofs.Lemmas.TimeSeriesHistory
+import NetVerif.Proofs.Lemmas.TimeSeriesLevels
 /-!
 C61 — time series keep an exact total of all observations.
 
@@ -216,13 +217,45 @@ example :
     obsIn 1700000010000000000 1700000011000000000 0 witnessOps = 7 ∧
     ((TS.newTimeSeries.run witnessOps).latest 1700000030000000000 0 1).2 = some ⟨0, false⟩ := by decide +kernel
 
-/-- The coarser levels: statement only (tied by the differential run and the Go oracle, which checks
-aligned ranges of every level against a naive reference). -/
-def RangeCoarserStatement : Prop :=
-  ∀ (ops : List Op) (a b : Int) (k : Nat) (l : Level), timesInRange ops = true →
-    pickLevel 64 a (TS.newTimeSeries.run ops).levels = some l → (TS.newTimeSeries.run ops).levels[k]? = some l →
-    a ≤ b → b - a ≤ maxDur → (l.end_ - a) % l.size = 0 → (b - a) % l.size = 0 → l.end_ - l.size * 64 ≤ a →
+/-- Σ of the ten `TimeSeries` resolutions (≈ 150 days in ns). -/
+def tsSizeSum : Int := timeSeriesResolutions.sum
+
+/-- The every-level clause for the ten-level `TimeSeries`: STATEMENT ONLY. The general theorem
+`TSRange.range_aligned_exact` needs every resolution to divide the zero `time.Time` (year 1), which holds
+for 1 s … 1 day but not for the three week-based resolutions (their grid is relative to the zero time until
+the level's first advance); that case is covered by the differential run and the Go oracle only. -/
+def RangeAlignedStatementTimeSeries : Prop :=
+  ∀ (ops : List Op) (a b : Int), TSRange.timesFit tsSizeSum ops = true → TSRange.noClear ops = true →
+    TSRange.alignedPicked (TS.newTimeSeries.run ops) a b = true →
     ((TS.newTimeSeries.run ops).range a b).2 = some ⟨obsIn a b 0 ops, false⟩
+
+/-- **C61, second clause, EVERY level — `MinuteHourSeries`** (60 buckets; 1 s and 1 min): for every history
+of adds (in or out of order, rollovers, far jumps) interleaved with `Total`/`Latest`/`LatestBuckets`/
+`ComputeRange`, a range aligned to the bucket grid of the level `ComputeRange` picks — the finest level whose
+retained window contains the start — and starting inside that window is reported exactly (the
+proportional-interpolation branch is not taken). Instance of `TSRange.range_aligned_exact`, which holds for
+every configuration whose resolutions are multiples of the finest one and divide the zero time. -/
+theorem range_aligned_exact (ops : List Op) (a b : Int)
+    (hin : TSRange.timesFit minuteHourSeriesResolutions.sum ops = true) (hnc : TSRange.noClear ops = true)
+    (hal : TSRange.alignedPicked (TS.newMinuteHourSeries.run ops) a b = true) :
+    ((TS.newMinuteHourSeries.run ops).range a b).2 = some ⟨obsIn a b 0 ops, false⟩ :=
+  TSRange.range_aligned_exact 60 1000000000 _ (by decide) (by decide) (by decide) (by decide)
+    (by unfold TSRange.resOK; decide) (by decide) ops a b hin hnc hal
+
+/-- Non-vacuity (coarser level, out-of-order adds, a rollover of the 1 s level between adds), seconds after
+1 700 000 040: adds at 100.5, 3.2 (out of order), 250.5 (rolls the 60-bucket 1 s level over completely),
+95 (out of order again); the minute-aligned range (60 s, 120 s] lies outside the 1 s window (190.x, 251], so
+`ComputeRange` picks the 1 min level; the hypotheses hold and the range reports 5 + 9. -/
+def coarseOps : List Op :=
+  [.add 1700000140500000000 5, .add 1700000043200000000 2, .add 1700000290500000000 1, .add 1700000135000000000 9]
+
+example :
+    TSRange.timesFit minuteHourSeriesResolutions.sum coarseOps = true ∧ TSRange.noClear coarseOps = true ∧
+    TSRange.alignedPicked (TS.newMinuteHourSeries.run coarseOps) 1700000100000000000 1700000160000000000 = true ∧
+    (pickLevel 60 1700000100000000000 (TS.newMinuteHourSeries.run coarseOps).mergePending.levels).map (·.size) = some 60000000000 ∧
+    obsIn 1700000100000000000 1700000160000000000 0 coarseOps = 14 ∧
+    ((TS.newMinuteHourSeries.run coarseOps).range 1700000100000000000 1700000160000000000).2 = some ⟨14, false⟩ := by
+  decide +kernel
 
 /-! ### T-tie: configuration tables regenerated from the Go source -/
 
